@@ -23,17 +23,24 @@ pub struct P2 {
     pub len: Dim,
     pub start: Dim,
     pub end: Dim,
-    /// max items taken from each end
+    /// max items taken from each end (loop bound)
     pub fb: usize,
+    /// items taken from the front / from the back before the iterator is dropped
+    pub f: Dim,
+    pub b: Dim,
     /// replacement length
     pub r: Dim,
+    /// RangeBounds form: 3 * start kind + end kind (start: Included / Excluded(s-1) / Unbounded, end:
+    /// Excluded / Included(e-1) / Unbounded); `Sym(8)` = every form in one query
+    pub form: Dim,
 }
 
 /// the range `s..e` in an arbitrary RangeBounds form that denotes it
-pub fn mk_range(s: usize, e: usize, len: usize) -> (Bound<usize>, Bound<usize>) {
-    let sk = any_u8();
-    let ek = any_u8();
-    assume(sk < 3 && ek < 3);
+pub fn mk_range(s: usize, e: usize, len: usize, form: Dim) -> (Bound<usize>, Bound<usize>) {
+    let fm = form.get();
+    assume(fm < 9);
+    let sk = fm / 3;
+    let ek = fm % 3;
     let sb = match sk {
         0 => Bound::Included(s),
         1 => {
@@ -150,8 +157,8 @@ fn pick_range(p: &P2, len: usize) -> (usize, usize) {
 }
 
 fn pick_fb(p: &P2, s: usize, e: usize) -> (usize, usize) {
-    let f = any_usize();
-    let b = any_usize();
+    let f = p.f.get();
+    let b = p.b.get();
     assume(f <= p.fb && b <= p.fb && f + b <= e - s);
     (f, b)
 }
@@ -161,7 +168,7 @@ pub fn drain_h<Tr: ?Sized + Trait, B: Backend, E: Elem + SatisfyTraits<Tr>>(p: P
     let (mut v, mut m) = build::<Tr, B, E>(p.cap, p.len, 0);
     let (s, e) = pick_range(&p, m.len);
     let (f, b) = pick_fb(&p, s, e);
-    let rng = mk_range(s, e, m.len);
+    let rng = mk_range(s, e, m.len, p.form);
     let cap = v.capacity();
     if typed {
         let mut t = v.downcast_mut::<E>().unwrap();
@@ -176,12 +183,13 @@ pub fn drain_h<Tr: ?Sized + Trait, B: Backend, E: Elem + SatisfyTraits<Tr>>(p: P
     // every element of the range is gone exactly once, the others untouched
     if E::TRACKED {
         let k = any_usize();
-        assume(k < m.len);
-        let id = m.id[k];
-        if k >= s && k < e {
-            vp_assert!(elems::live(id) == 0 && elems::drops(id) == 1, "VP: drained element must be destroyed exactly once");
-        } else {
-            vp_assert!(elems::live(id) == 1 && elems::drops(id) == 0, "VP: element outside the drained range must stay alive");
+        if k < m.len {
+            let id = m.id[k];
+            if k >= s && k < e {
+                vp_assert!(elems::live(id) == 0 && elems::drops(id) == 1, "VP: drained element must be destroyed exactly once");
+            } else {
+                vp_assert!(elems::live(id) == 1 && elems::drops(id) == 0, "VP: element outside the drained range must stay alive");
+            }
         }
     }
     m.drain(s, e);
@@ -311,7 +319,7 @@ pub fn splice_h<Tr: ?Sized + Trait, B: Backend, E: Elem + SatisfyTraits<Tr>>(p: 
         // the result fits the fixed capacity
         assume(m.len - (e - s) + n <= v.capacity());
     }
-    let rng = mk_range(s, e, m.len);
+    let rng = mk_range(s, e, m.len, p.form);
     let mut slots: [MaybeUninit<E>; RMAX] = unsafe { MaybeUninit::uninit().assume_init() };
     let (rid, rtag) = fill_slots::<E>(&mut slots, n);
     let sp = slots.as_mut_ptr() as *mut E;
@@ -336,12 +344,13 @@ pub fn splice_h<Tr: ?Sized + Trait, B: Backend, E: Elem + SatisfyTraits<Tr>>(p: 
     }
     if E::TRACKED {
         let k = any_usize();
-        assume(k < m.len);
-        let id = m.id[k];
-        if k >= s && k < e {
-            vp_assert!(elems::live(id) == 0 && elems::drops(id) == 1, "VP: spliced-out element must be destroyed exactly once");
-        } else {
-            vp_assert!(elems::live(id) == 1 && elems::drops(id) == 0, "VP: element outside the spliced range must stay alive");
+        if k < m.len {
+            let id = m.id[k];
+            if k >= s && k < e {
+                vp_assert!(elems::live(id) == 0 && elems::drops(id) == 1, "VP: spliced-out element must be destroyed exactly once");
+            } else {
+                vp_assert!(elems::live(id) == 1 && elems::drops(id) == 0, "VP: element outside the spliced range must stay alive");
+            }
         }
     }
     m.splice(s, e, n, &rid, &rtag);
